@@ -94,7 +94,7 @@ impl DeferredRead {
                     iin2
                 });
                 self.clear();
-                #[cfg(dnp3_verif)]
+                #[cfg(all(test, dnp3_verif))]
                 {
                     crate::util::verif_trace::log("db deferred_select".to_string());
                     crate::util::verif_trace::log(format!("> iin2 {}", iin2.value));
